@@ -122,6 +122,20 @@ class Session(object):
                 rec.annot = {'pats': [P.lit(['r', 'n']), P.EOFM]}
                 out = sp.readline()
                 rec.emit(e='flret', fn='readline', val=rec.ab(out))
+            elif fn in ('readlines', 'iter'):
+                sp.searchwindowsize = W or None
+                rec.annot = {'pats': [P.lit(['r', 'n']), P.EOFM]}
+                rec.emit(e='flstart')
+                lines = []
+                try:
+                    if fn == 'readlines':
+                        lines = sp.readlines()
+                    else:
+                        for ln in sp:
+                            lines.append(ln)
+                finally:
+                    rec.emit(e='fllines', lines=[rec.ab(x) for x in lines], sep=['r', 'n'])
+                out = lines
             else:
                 raise ValueError(fn)
         except (pexpect.EOF, pexpect.TIMEOUT):
@@ -186,8 +200,10 @@ def random_call(rng, alpha, allow_setbuf=True):
         return dict(fn='read_n', n=rng.choice([1, 2, 3]), W=W)
     if r < 0.78:
         return dict(fn='read_all', W=W)
-    if r < 0.90:
+    if r < 0.86:
         return dict(fn='readline', W=W)
+    if r < 0.90:
+        return dict(fn=rng.choice(['readlines', 'iter']), W=W, needs_eof=True)
     if allow_setbuf:
         return dict(fn='setbuf', v=''.join(rng.choice(alpha) for _ in range(rng.randint(0, 3))))
     return dict(fn='readline', W=W)
@@ -209,7 +225,7 @@ def random_history(rng, tid, maxlen=8, maxcalls=4, alpha=None):
             cuts.append(0)
     ending = rng.choice(['eof', 'eof', 'timeout', None])
     calls = [random_call(rng, alpha) for _ in range(rng.randint(1, maxcalls))]
-    if any(c.get('tmo') == 'none' for c in calls):
+    if any(c.get('tmo') == 'none' or c.get('needs_eof') for c in calls):
         ending = 'eof'      # a silent peer and timeout=None would block for ever
     maxread = rng.choice([1, 2, 3, 2000])
     return run_history(mapping, stream, cuts, ending, calls, maxread=maxread, tid=tid)
